@@ -1,5 +1,6 @@
 import DarkluaModel.Shared.Visitor
 import DarkluaModel.Shared.Run
+import DarkluaModel.Rules.FindVariables
 /-!
 # `convert_square_root_call` (`src/rules/convert_square_root_call.rs`)
 
@@ -132,16 +133,26 @@ def innerExpression : Nat → Expr → Expr
   | n + 1, .cast e _ => innerExpression n e
   | _, e => e
 
-/-- the loop of `expressions_as_statement`; `acc` is `statements` in REVERSE order -/
+/-- `uses_discard_variable` (/repo fix 43be447): `FindVariables("_")` through `DefaultVisitor` on the
+expression as written (before parentheses / casts are stripped) -/
+def usesDiscard (e : Expr) : Bool := FindVariables.mE ["_"] e
+
+/-- the loop of `expressions_as_statement`; `acc` is `statements` in REVERSE order. `used_later` for the
+current value = some LATER expression mentions an identifier named `_`: a non-call value then gets its
+own `do local _ = value end` (so that the later `_` does not read it); otherwise it extends a
+trailing `local _ = …` or starts one. -/
 def asStatements : List Expr → List Stmt → List Stmt
   | [], acc => acc.reverse
   | v :: rest, acc =>
     match innerExpression v.size v with
     | .call f m k a => asStatements rest (.callStmt (.call f m k a) :: acc)
     | value =>
-      match acc with
-      | .localAssign kind names values :: acc' => asStatements rest (.localAssign kind names (values ++ [value]) :: acc')
-      | _ => asStatements rest (.localAssign .loc [.mk "_" none] [value] :: acc)
+      if rest.any usesDiscard then
+        asStatements rest (.doBlock (.mk [.localAssign .loc [.mk "_" none] [value]] none) :: acc)
+      else
+        match acc with
+        | .localAssign kind names values :: acc' => asStatements rest (.localAssign kind names (values ++ [value]) :: acc')
+        | _ => asStatements rest (.localAssign .loc [.mk "_" none] [value] :: acc)
 
 /-- `expressions_as_statement` -/
 def expressionsAsStatement (values : List Expr) : Stmt :=
